@@ -273,6 +273,10 @@ func init() {
 			}
 			return nil
 		},
+		"FreeMapOrder": func(r *Run, fr *frame, a []value) value {
+			r.freeMaps = a[0].(bool)
+			return nil
+		},
 		"Go": func(r *Run, fr *frame, a []value) value {
 			if r.threads == nil {
 				r.threads = newThreadState()
